@@ -460,3 +460,153 @@ Proof.
   - pose proof (xf_doc_height_fuel d). lia.
   - intros c Hcin. destruct (xh_collect_sub (xv_frags d) s _ _ _ _ _ Hh Ec c Hcin) as (n' & E & Hsub). rewrite E. exact Hsub.
 Qed.
+
+(* ---------- the same height on the executable document, and the depth of the walk ---------- *)
+Section MxHeight.
+  Variable mfrags : list (str * mx_set).
+
+  Inductive mxh_le : nat -> mx_sel -> Prop :=
+  | mxh_field n a nm args dirs def sty sub : mxh_les n sub -> mxh_le (S n) (MxField a nm args dirs def sty sub)
+  | mxh_spread n nm dirs : (forall st, xv_assoc nm mfrags = Some st -> mxh_les n (snd st)) -> mxh_le n (MxSpread nm dirs)
+  | mxh_inline n c dirs sty sub : mxh_les n sub -> mxh_le n (MxInline c dirs sty sub)
+  with mxh_les : nat -> list mx_sel -> Prop :=
+  | mxh_nil n : mxh_les n []
+  | mxh_cons n x r : mxh_le n x -> mxh_les n r -> mxh_les n (x :: r).
+
+  Lemma mxh_les_in n l x : mxh_les n l -> In x l -> mxh_le n x.
+  Proof. intros H. induction H as [|n y r Hy _ IH]; intros Hx; [destruct Hx|]. destruct Hx as [<-|Hx]; [exact Hy|exact (IH Hx)]. Qed.
+
+  Lemma mxh_les_app n a b : mxh_les n a -> mxh_les n b -> mxh_les n (a ++ b).
+  Proof. intros Ha Hb. induction Ha as [|n x r Hx _ IH]; [exact Hb|]. cbn [app]. constructor; [exact Hx|exact (IH Hb)]. Qed.
+
+  Lemma mxh_reach n sets : (forall st, In st sets -> mxh_les n (snd st)) ->
+    forall st, mxe_reach mfrags sets st -> mxh_les n (snd st).
+  Proof.
+    intros H st R. induction R as [st Hin|ty sels c dirs sty sub _ IH Hin|ty sels nm dirs st _ IH Hin Ha].
+    - exact (H st Hin).
+    - cbn [snd] in *. pose proof (mxh_les_in _ _ _ IH Hin) as Hx. inversion Hx; subst. assumption.
+    - cbn [snd] in IH. pose proof (mxh_les_in _ _ _ IH Hin) as Hx. inversion Hx as [| ? ? ? Hs |]; subst. exact (Hs st Ha).
+  Qed.
+
+  Lemma mxh_coll n sets f : (forall st, In st sets -> mxh_les n (snd st)) -> mxe_coll mfrags sets f ->
+    exists n', n = S n' /\ mxh_les n' (mf_sub f).
+  Proof.
+    intros H (ty & sels & R & Hf). pose proof (mxh_reach n sets H _ R) as Hs. cbn [snd] in Hs.
+    apply mxe_fields_in in Hf. destruct Hf as (a & nm & args & dirs & def & sty & sub & Hx & ->). cbn [mf_sub].
+    pose proof (mxh_les_in _ _ _ Hs Hx) as Hx'. inversion Hx'; subst. eexists. split; [reflexivity|assumption].
+  Qed.
+
+  Variable parts : list mx_fs -> list (list mx_fs).
+  Variable rel : mx_fs -> mx_fs -> bool.
+  Hypothesis parts_sub : forall L g x, In g (parts L) -> In x g -> In x L.
+
+  Lemma mxh_walk_nil : forall fuel depth st st', mxn_walk parts rel mfrags fuel depth st [] = Some st' -> snd st' = snd st.
+  Proof.
+    intros fuel depth st st'. destruct fuel as [|fuel]; cbn [mxn_walk]; [discriminate|].
+    assert (Hg : forall g, In g (parts []) -> g = []).
+    { intros g Hg. destruct g as [|x g]; [reflexivity|]. exfalso. exact (parts_sub [] _ x Hg (or_introl eq_refl)). }
+    revert Hg. generalize (parts []). intros ps. revert st. induction ps as [|g ps IH]; intros st Hg; cbn [mxn_fold].
+    - intros [= <-]. reflexivity.
+    - rewrite (Hg g (or_introl eq_refl)). unfold mxn_step at 1. cbn [mx_nested_sets filter map]. intros E.
+      rewrite (IH _ (fun g' H' => Hg g' (or_intror H')) E). reflexivity.
+  Qed.
+
+  (* the high water mark stays below the depth of the call plus the nesting height of the set *)
+  Lemma mxh_walk_hi : forall fuel depth st L st' n, (forall f, In f L -> mxh_les n (mf_sub f)) ->
+    mxn_walk parts rel mfrags fuel depth st L = Some st' -> (snd st' <= Nat.max (snd st) (depth + n + 1))%nat.
+  Proof.
+    induction fuel as [|fuel IH]; intros depth st L st' n HL; cbn [mxn_walk]; [discriminate|].
+    assert (Hps : forall g, In g (parts L) -> forall f, In f g -> mxh_les n (mf_sub f)).
+    { intros g Hg f Hf. apply HL. eapply parts_sub; eassumption. }
+    revert Hps. generalize (parts L). intros ps. revert st. induction ps as [|g ps IHps]; intros st Hps; cbn [mxn_fold].
+    - intros [= <-]. lia.
+    - destruct (mxn_step rel mfrags (mxn_walk parts rel mfrags fuel) depth st g) as [st1|] eqn:E1; [|discriminate].
+      intros E. specialize (IHps st1 (fun g' H' => Hps g' (or_intror H')) E).
+      assert (H1 : (snd st1 <= Nat.max (snd st) (depth + n + 1))%nat); [|lia].
+      revert E1. unfold mxn_step. destruct (mx_nested_sets g) as [|n0 nr] eqn:En; [intros [= <-]; cbn; lia|]. rewrite <- En.
+      destruct (mx_expand mfrags (mx_nested_sets g)) as [merged|] eqn:Ex; [|discriminate].
+      unfold mxn_enter, mxn_and_ok. cbn [fst snd]. destruct (Nat.ltb mx_field_depth_limit (S depth)); [intros [= <-]; cbn [snd]; lia|].
+      intros E1. destruct merged as [|x0 mr] eqn:Em.
+      + apply mxh_walk_nil in E1. cbn [snd] in E1. lia.
+      + rewrite <- Em in *.
+        assert (Hmem : forall x, In x merged -> exists n', n = S n' /\ mxh_les n' (mf_sub x)).
+        { intros x Hx. apply (mxe_expand_coll mfrags _ _ Ex) in Hx. apply (mxh_coll n (mx_nested_sets g)); [|exact Hx].
+          intros st0 H0. unfold mx_nested_sets in H0. apply in_map_iff in H0. destruct H0 as (f & <- & Hf).
+          apply filter_In in Hf. cbn [snd]. apply (Hps g (or_introl eq_refl)). apply Hf. }
+        destruct (Hmem x0 ltac:(rewrite Em; left; reflexivity)) as (n' & -> & _).
+        assert (HL' : forall f, In f merged -> mxh_les n' (mf_sub f)).
+        { intros f Hf. destruct (Hmem f Hf) as (n'' & E' & H'). injection E' as <-. exact H'. }
+        specialize (IH _ _ _ _ n' HL' E1). cbn [snd] in IH. lia.
+  Qed.
+End MxHeight.
+
+Lemma mxn_shape_parts_sub : forall L g x, In g (mxn_shape_parts L) -> In x g -> In x L.
+Proof.
+  intros L g x Hg Hx. unfold mxn_shape_parts in Hg. apply in_map_iff in Hg. destruct Hg as ([k g'] & <- & Hkg).
+  cbn [snd] in Hx. rewrite (gbon_in _ _ _ Hkg) in Hx. apply filter_In in Hx. apply Hx.
+Qed.
+
+Lemma mxn_parents_parts_sub s : forall L g x, In g (mxn_parents_parts s L) -> In x g -> In x L.
+Proof.
+  intros L g x Hg Hx. unfold mxn_parents_parts in Hg. apply in_flat_map in Hg. destruct Hg as ([k g'] & Hkg & Hpg).
+  cbn [snd] in Hpg. pose proof (gbcp_incl s g' g x Hpg Hx) as Hx'. rewrite (gbon_in _ _ _ Hkg) in Hx'. apply filter_In in Hx'. apply Hx'.
+Qed.
+
+(* one operation: the high water mark stays below the nesting height of the root set *)
+Lemma mxh_validate_hi s mfrags st (root : mx_set) st' H : mxh_les mfrags H (snd root) ->
+  mxn_validate_operation s mfrags st root = Some st' -> (snd st' <= Nat.max (snd st) H)%nat.
+Proof.
+  intros Hroot. unfold mxn_validate_operation. destruct (mx_expand mfrags [root]) as [fields|] eqn:Ex; [|discriminate].
+  rewrite mxn_shape_walk.
+  destruct (mxn_walk mxn_shape_parts (mx_same_output_type_shape s) mfrags mx_fuel 0 st fields) as [st1|] eqn:E1; [|discriminate].
+  rewrite mxn_parents_walk.
+  destruct (mxn_walk (mxn_parents_parts s) mx_same_name_and_arguments mfrags mx_fuel 0 st1 fields) as [st2|] eqn:E2; [|discriminate].
+  intros [= <-]. cbn [mxn_and_ok snd]. destruct fields as [|x0 fr] eqn:Ef.
+  - apply (mxh_walk_nil mfrags _ _ mxn_shape_parts_sub) in E1. apply (mxh_walk_nil mfrags _ _ (mxn_parents_parts_sub s)) in E2. lia.
+  - rewrite <- Ef in *.
+    assert (Hmem : forall x, In x fields -> exists n', H = S n' /\ mxh_les mfrags n' (mf_sub x)).
+    { intros x Hx. apply (mxe_expand_coll mfrags _ _ Ex) in Hx. apply (mxh_coll mfrags H [root]); [|exact Hx].
+      intros st0 [<-|[]]. exact Hroot. }
+    destruct (Hmem x0 ltac:(rewrite Ef; left; reflexivity)) as (n' & -> & _).
+    assert (HL : forall f, In f fields -> mxh_les mfrags n' (mf_sub f)).
+    { intros f Hf. destruct (Hmem f Hf) as (n'' & E' & H'). injection E' as <-. exact H'. }
+    pose proof (mxh_walk_hi mfrags _ _ mxn_shape_parts_sub _ _ _ _ _ n' HL E1) as B1.
+    pose proof (mxh_walk_hi mfrags _ _ (mxn_parents_parts_sub s) _ _ _ _ _ n' HL E2) as B2. lia.
+Qed.
+
+(* the heights of the parsed selections carry over to the built ones *)
+Section HeightTransfer.
+  Variable s : schema.
+  Variable afrags : list (str * xv_frag).
+  Variable mfrags : list (str * mx_set).
+  Hypothesis Hassoc : forall n, xv_assoc n mfrags =
+    option_map (fun f => (xv_frag_cond f, mx_from_ast s (xv_frag_cond f) (xv_frag_sels f))) (xv_assoc n afrags).
+
+  Lemma mxh_from_ast_sel n x : xh_le afrags n x -> forall p, mxh_les mfrags n (mx_from_ast_sel s p x).
+  Proof.
+    intros H. revert n x H.
+    apply (xh_le_min afrags (fun n x => forall p, mxh_les mfrags n (mx_from_ast_sel s p x))
+                            (fun n l => forall p, mxh_les mfrags n (mx_from_ast s p l))).
+    - intros n a nm args dirs sub _ IH p. cbn [mx_from_ast_sel]. destruct (xv_lookup_field s p nm) as [fd|]; [|constructor].
+      assert (Hgen : mxh_les mfrags (S n) [MxField a nm args dirs fd (inner_named_type (fd_ty fd))
+                                              (flat_map (mx_from_ast_sel s (inner_named_type (fd_ty fd))) sub)]).
+      { constructor; [|constructor]. constructor. exact (IH (inner_named_type (fd_ty fd))). }
+      assert (Hleaf : mxh_les mfrags (S n) (if xv_is_nil sub then [MxField a nm args dirs fd (inner_named_type (fd_ty fd)) []] else [])).
+      { destruct (xv_is_nil sub); [|constructor]. constructor; [|constructor]. constructor. constructor. }
+      destruct (sch_get_type s (inner_named_type (fd_ty fd))) as [t|]; [|exact Hgen]. destruct t; try exact Hgen; exact Hleaf.
+    - intros n nm dirs _ IH p. cbn [mx_from_ast_sel]. constructor; [|constructor]. constructor. intros st Ha.
+      rewrite Hassoc in Ha. destruct (xv_assoc nm afrags) as [f|] eqn:Ef; [|discriminate]. cbn [option_map] in Ha. injection Ha as <-.
+      cbn [snd]. exact (IH f eq_refl (xv_frag_cond f)).
+    - intros n c dirs sub _ IH p. cbn [mx_from_ast_sel]. destruct c as [c'|].
+      + destruct (xv_is_some (sch_get_type s c')); [|constructor]. constructor; [|constructor]. constructor. exact (IH c').
+      + constructor; [|constructor]. constructor. exact (IH p).
+    - intros n p. constructor.
+    - intros n x r _ IHx _ IHr p. unfold mx_from_ast. cbn [flat_map]. apply mxh_les_app; [exact (IHx p)|exact (IHr p)].
+  Qed.
+
+  Lemma mxh_from_ast n sels p : xh_les afrags n sels -> mxh_les mfrags n (mx_from_ast s p sels).
+  Proof.
+    intros H. induction H as [|n x r Hx _ IH]; [constructor|]. unfold mx_from_ast. cbn [flat_map].
+    apply mxh_les_app; [exact (mxh_from_ast_sel n x Hx p)|exact IH].
+  Qed.
+End HeightTransfer.
